@@ -137,6 +137,17 @@ CHECKS["C09"] = dict(
         "Maximal runs are NOT demanded of the back-conversion (an earlier version of this check did, which was a false alarm).",
    technique="TLA+ dense-array semantics + TLC state enumeration replayed into code; TLC validation of returned records",
    design="6/C09")
+CHECKS["C10"] = dict(
+   text="spec/Genome.tla DEFINES every genome-wide operation as the per-contig map of the single-contig definitions of Intervals.tla "
+        "(mask, pile-up, merge, sort, clip, extension, windows, values under intervals reversed on '-') and the concatenated-coordinate "
+        "bijection; TLC checks Bijection, MergedInside and the action property NoNeighbourEffect. MC_C10 adds entries one at a time on "
+        "any contig of genomes with 1-4 contigs (prefix-related names), so intervals ending at a contig end followed by intervals "
+        "starting at 0 of the next, and contigs without entries, all occur; every state is replayed through GenomicIntervals, "
+        "GenomicLocation.get_windows, GenomicArray[intervals], GenomicSequence[intervals] from real FASTA files (also with file order "
+        "different from genome order), Geometry.* and GlobalOffset round trips.",
+   note=TB + "Bounds: contig sizes 1-3, <=2 (quick) / <=3 (thorough) entries; merge distances 0 and 1; extension lengths 1-3; flanks 0-1.",
+   technique="TLA+ per-contig lifting of the interval definitions checked by TLC; every state replayed into the genome-wide API",
+   design="6/C10")
 PENDING = {}
 def main():
     props = [json.loads(l)["id"] for l in open(os.path.join(HERE, "properties.jsonl"))]
